@@ -5,6 +5,7 @@ with a resource-fingerprint lasso, and system-call fault injection under strace.
 
 Entry points (kind="py" steps of /verif/check): run_c05(**kw), run_c06(**kw).
 """
+import atexit
 import concurrent.futures
 import hashlib
 import json
@@ -474,7 +475,12 @@ def tmpdir():
     global _TMPDIR
     if _TMPDIR is None:
         os.makedirs(WORK, exist_ok=True)
-        _TMPDIR = tempfile.mkdtemp(prefix="probe-thread.", dir=WORK)
+        for d in os.listdir(WORK):  # leftovers of a killed run
+            p = os.path.join(WORK, d)
+            if d.startswith("probe-thread.tmp.") and os.path.isdir(p) and time.time() - os.path.getmtime(p) > 3600:
+                shutil.rmtree(p, ignore_errors=True)
+        _TMPDIR = tempfile.mkdtemp(prefix="probe-thread.tmp.", dir=WORK)
+        atexit.register(cleanup_tmp)
     return _TMPDIR
 
 
@@ -964,9 +970,14 @@ def maps_checks(v, rep):
         v.add("C06:thread:not-exited", "/proc/self/task lists %d threads at the end" % rep["end"]["tasks"])
 
 
-def crash_check(v, res, rep):
-    if res["timed_out"]:
-        v.add("C05:join:hangs", "the probe did not finish within the parent's time limit; last output: " + " | ".join(res["out"].splitlines()[-3:]))
+def crash_check(v, res, rep, specs=None):
+    if res["timed_out"] or res["rc"] == -signal.SIGALRM:
+        # the main thread sits in a handle operation that never returns (probe-side alarm or parent's limit)
+        tail = [l for l in res["out"].splitlines() if not l.startswith(("maps", "a ", "gt "))][-3:]
+        only_drops = bool(specs) and all(op in ("d", "e", "l", "x") for _t, _p, op in specs)
+        v.add("C05:drop:hangs" if only_drops else "C05:join:hangs",
+              "a handle operation never returned (%s); last output: %s" %
+              ("probe-side alarm" if not res["timed_out"] else "parent-side time limit", " | ".join(tail)))
         return True
     if rep["usage"]:
         v.add("MACHINERY:usage", "probe rejected its arguments")
@@ -1013,7 +1024,7 @@ def eval_gated(binp, case):
     rep = parse_report(res["out"])
     v = V()
     info = dict(argv=argv, conformant=False, outcome="")
-    if crash_check(v, res, rep):
+    if crash_check(v, res, rep, specs):
         info["outcome"] = "not-followed"
         if rep["stuck"]:
             info["gt"] = rep["gt"]
@@ -1044,7 +1055,7 @@ def eval_free(binp, case):
     rep = parse_report(res["out"])
     v = V()
     info = dict(argv=argv, outcome="free:n=%d" % len(specs))
-    if crash_check(v, res, rep):
+    if crash_check(v, res, rep, specs):
         return v, info, rep
     n = len(specs)
     if rep["concurrent"] != (n, n + 1):
@@ -1078,11 +1089,11 @@ def eval_hist(binp, case):
     reps = case["reps"]
     log = case.get("log", False)
     argv = ["hist", "5000", str(reps), "1" if log else "0", spec_str(specs)]
-    res = run_probe(binp, argv, strace=False, timeout=120)
+    res = run_probe(binp, argv, strace=False, timeout=60)
     rep = parse_report(res["out"])
     v = V()
     info = dict(argv=argv, outcome="hist")
-    if crash_check(v, res, rep):
+    if crash_check(v, res, rep, specs):
         return v, info, rep
     h = rep["hist"]
     n = len(specs)
